@@ -12,35 +12,43 @@ from .. import gen, sysdesc, wire
 
 CLAIM = True
 LEVEL_TEXT = ("Theorems (Lean 4) about the executable model of `_diag` (the clusters / nodes / edges / attribute dictionaries "
-              "handed to pydot): node names are a permutation of the component names plus `Scale` iff heat; the edge list is the "
-              "parent->child list; cluster membership = non-empty group (none when grouping is off); attribute precedence "
-              "default -> class name -> component name, then the three heat overrides; mix monotone in the loss, 1 at the "
-              "maximum (exactly #ff1210), 0 at zero loss (exactly #2120ff), channel-wise monotone colour; legend = nice(max); "
-              "for EVERY positive value the number `_nice_float` shows is within half a unit of the third significant digit "
-              "(round-half-even model of `'{:e}'`, `round`, `%.2e`, incl. the band just below a power of ten); label loss = "
-              "duration-weighted mean.  Tied to the code on every run: each diagram is produced by the real make_diag/make_hdiag, "
-              "parsed from Graphviz's JSON output and compared node by node, attribute by attribute, label string by label "
-              "string with the model; the caller's config is deep-compared before/after.  Partial: names containing ':' "
-              "(finding F23, `nodes_exact_rendered_partial` / `c19_nodes_full_fails`) and other names pydot does not quote "
-              "(F23b-F23e; negative solver-noise loss: F30-C19-NEGLOSS) are excluded from the rendered-name theorem and reported as KNOWN-FINDING.")
-LEVEL_NOTE = ("pydot's and Graphviz' reading of name strings is outside the model (only the ':' split is modelled, for F23); "
+              "handed to pydot, for the code after the fixes 26e3f60, e71248f, f2aec6f, c0d57b9): node names are a permutation "
+              "of the component names plus a legend with a provably fresh name iff heat; the edge list is the parent->child "
+              "list; cluster membership = non-empty group (none when grouping is off); attribute precedence default -> class "
+              "name -> component name (label = name when no level gives one), then the three heat overrides; the clamped mix "
+              "is monotone in the loss WITHOUT any assumption on the losses, 1 at the maximum (exactly #ff1210), 0 at zero loss "
+              "(exactly #2120ff), channel-wise monotone colour, `_gcolor` never raises; legend = nice(max); for EVERY positive "
+              "value the number `_nice_float` shows is within half a unit of the third significant digit (round-half-even "
+              "model of `'{:e}'`, `round`, `%.2e`, incl. the band just below a power of ten); label loss = duration-weighted "
+              "mean; the quoted identifier `_q(name)` is read back by Graphviz' lexer as `name` for every name DOT can "
+              "express (names with : \" < > { } |, DOT keywords, `Scale`, ...).  Tied to the code on every run: each diagram "
+              "is produced by the real make_diag/make_hdiag, parsed from Graphviz's JSON output and compared node by node, "
+              "attribute by attribute, label string by label string with the model; the caller's config is deep-compared "
+              "before/after.  Partial: a name with an odd run of backslashes directly before a double quote or at its end "
+              "cannot be written in DOT (finding F23f: `nodes_exact_rendered_partial` excludes exactly those names, "
+              "`c19_nodes_full_fails` keeps the witness); group names containing ':' or a double quote still break the "
+              "un-quoted cluster name (F23g, oracle only).")
+LEVEL_NOTE = ("pydot's handling of *attribute values* and of cluster names and Graphviz' anonymisation of identifiers starting "
+              "with '%' are outside the model (such nodes are identified through their explicit label); "
               "`config_unchanged` is true by construction in the pure model - the no-mutation claim rests on the before/after "
               "comparison of the real dict; float rounding inside `_gcolor` / `_nice_float` is modelled on exact rationals, "
-              "and within 1e-6 of a rounding tie colours / digits are compared numerically instead of as strings; "
-              "`heat_order` assumes the largest loss is not negative (negative losses make `to_hex` raise - the model says so too).")
+              "and at a rounding tie (1e-6) colours / digits are compared numerically instead of as strings.")
 MODULE = "SysLoss.Props.C19"
 THEOREMS = ["SysLoss.C19." + t for t in (
     "nodes_exact", "nodes_nodup", "edges_exact", "clusters_on", "clusters_off", "clusters",
     "override_precedence", "cluster_precedence", "heat_overrides", "config_unchanged", "config_empty_is_default",
-    "heat_order", "heat_max_warm", "heat_zero_cold", "heat_colour_order", "colour_warm", "colour_cold",
-    "heat_colour_defined", "legend_label", "no_legend", "nice_float_3sig", "decade_bounds", "nice_float_si_range",
-    "heat_loss_weighted", "heat_label_loss", "nodes_exact_rendered_partial", "c19_nodes_full_fails")]
+    "legend_fresh", "heat_order", "mix_order", "heat_max_warm", "heat_zero_cold", "heat_colour_order", "colour_warm",
+    "colour_cold", "heat_colour_defined", "clamp_id", "legend_label", "no_legend", "nice_float_3sig", "decade_bounds",
+    "nice_float_si_range", "heat_loss_weighted", "heat_label_loss", "renderedId_of_no_backslash",
+    "nodes_exact_rendered_partial", "edges_rendered_partial", "c19_nodes_full_fails")]
 RULE = ("random power trees from gen.gen_system (<=24 nodes, groups, rails, PMux, load phases) with component / group / "
-        "system names drawn from an alphabet with spaces, digits, punctuation and unicode, rendered by make_diag and "
+        "system names drawn from an alphabet with spaces, digits, punctuation, : \" < > { } | \\ and unicode (plus DOT keywords, "
+        "`Scale`, leading %, class names, `default`), rendered by make_diag and "
         "make_hdiag to Graphviz JSON with a random configuration (overrides at default / class / name level incl. unknown "
         "keys, rankdir, occasionally a missing section or a clashing 'label'), grouping on/off; one case = one diagram; "
         "non-trivial = rendered, >= 3 components; distinct by (description, config, group, mode); a separate stream uses "
-        "names containing : \" < > { } | or DOT keywords")
+        "names DOT cannot express (odd backslash run), group names with : or \", and names that look already quoted; the "
+        "witnesses of the repaired findings F23-F23e, F30 are replayed as regression cases (corpus/C19)")
 ASSUMPTIONS = ["IEEE rounding is outside the model: colours and label digits are compared as strings and, within 1e-6 of a "
                "rounding tie of the exact rational value, numerically (both must be correct roundings)",
                "Graphviz `dot -Tjson` reports the graph it parsed faithfully (it is the observation instrument)"]
@@ -63,7 +71,11 @@ SI = {"p": -12, "n": -9, "u": -6, "m": -3, "": 0, "k": 3, "M": 6}
 # generators
 
 ALPHA = list("abcdefghijklmnopqrstuvwxyzABCDEFGHIJKLMNOPQRSTUVWXYZ0123456789") + \
-    list("  __--..++##$$&&''()[]=,;/*!?@~^%") + list("éüßøΩµλж中日√±°")
+    list("  __--..++##$$&&''()[]=,;/*!?@~^%") + list("::\"<>{}|\\") + list("éüßøΩµλж中日√±°")
+GALPHA = [c for c in ALPHA if c not in ':"<>\\']          # group names: see finding F23g
+SPECIAL_NAMES = ["default", "cluster_G", "sysLoss", "node", "edge", "graph", "Node", "GRAPH", "subgraph", "strict",
+                 "Scale", "Scale_", "%RH", "%", "%3", "A:x", "A:y", "Boost:5V", "A:", "rail::", ":A", 'a"b', '5" pipe', '"',
+                 "a\nb", "{x}", "a|b", "<", ">", "a<b>", "x\\\\", "p\\q", "\\N", "12", "1.5", "-3"]
 COLORS = ["coral", "deeppink", "aquamarine", "gray80", "#a0b0c0", "darkorchid1", "white", "darkturquoise", "yellow"]
 NODE_POOL = {"fillcolor": COLORS, "color": COLORS, "fontcolor": ["black", "navy", "gray20"],
              "shape": ["box", "oval", "octagon", "circle", "hexagon", "ellipse", "house"],
@@ -82,39 +94,61 @@ EDGE_POOL = {"arrowhead": ["none", "normal", "dot"], "color": ["black", "gray40"
              "penwidth": ["1", "2.5"], "style": ["solid", "dashed"], "e_key": ["e v"]}
 
 
-def rname(rng, used, lo=1, hi=9):
-    """a fresh well-formed name: no : \" < > { } | \\, not a DOT keyword, not `Scale`, no leading `%`, no
-    leading/trailing blank"""
+def dot_ok(n):
+    """DOT can write `n` as a quoted identifier: no odd run of backslashes directly before a `\"` or at the end
+    (Python twin of `Diagram.nameOk`)"""
+    run = 0
+    for ch in n:
+        if ch == "\\":
+            run += 1
+            continue
+        if ch == '"' and run % 2 == 1:
+            return False
+        run = 0
+    return run % 2 == 0
+
+
+def looks_quoted(n):
+    """pydot passes *attribute values* of the form "…" or <…> through un-quoted (already quoted / HTML), so the explicit
+    plain-diagram label of such a name is shown without its quotes / brackets: kept to a side stream"""
+    return len(n) >= 2 and ((n[0] == '"' and n[-1] == '"') or (n[0] == "<" and n[-1] == ">"))
+
+
+def rname(rng, used, lo=1, hi=9, alpha=ALPHA):
+    """a fresh name: anything from the alphabet (incl. : \" < > { } | \\ and a leading %) that DOT can express"""
     while True:
-        n = "".join(rng.choice(ALPHA) for _ in range(rng.randint(lo, hi))).strip()
-        if not n or n in used or n.lower() in ("node", "edge", "graph", "digraph", "subgraph", "strict", "scale") \
-                or n[0] == "%":
+        n = "".join(rng.choice(alpha) for _ in range(rng.randint(lo, hi))).strip()
+        if not n or n in used or not dot_ok(n) or looks_quoted(n):
             continue
         used.add(n)
         return n
 
 
-def rename(rng, desc, special=0.08):
-    """replace the generator's names (S1, P1, …), group names and the system name; a few components get a name that
-    is also a class name or `default` (both are legal and take the attribute path through `name in attrs`)"""
+def rename(rng, desc, special=0.12):
+    """replace the generator's names (S1, P1, …), group names and the system name; some components get a name that
+    is a class name, `default`, a DOT keyword, `Scale`, starts with `%`, contains `:` or `\"` …"""
     used = set(c["rail"] for c in desc["comps"] if c.get("rail"))
     mp = {}
     for c in desc["comps"]:
         if rng.random() < special:
-            cand = rng.choice(list(CLASSNAME.values()) + ["default", "cluster_G", "sysLoss"])
+            cand = rng.choice(list(CLASSNAME.values()) + SPECIAL_NAMES)
             if cand not in used:
                 used.add(cand)
                 mp[c["name"]] = cand
                 continue
         mp[c["name"]] = rname(rng, used)
     gused = set()
-    gmap = {g: (rname(rng, gused, 1, 7) if rng.random() < 0.9 else "default") for g in ("G1", "G2", "G3", "G4")}
+    gmap = {g: (rname(rng, gused, 1, 7, GALPHA) if rng.random() < 0.85 else rng.choice(["default", "node", "%g", "{a|b}"]))
+            for g in ("G1", "G2", "G3", "G4")}
     for c in desc["comps"]:
         c["name"] = mp[c["name"]]
         c["parents"] = [mp.get(p, p) for p in c["parents"]]
         if c.get("group"):
             c["group"] = gmap[c["group"]]
-    desc["name"] = rname(rng, set(), 1, 12)
+    while True:
+        desc["name"] = rname(rng, set(), 1, 12)
+        if not desc["name"].endswith("\\"):
+            break
     return desc
 
 
@@ -145,7 +179,8 @@ def gen_config(rng, desc, malformed_cfg=0.06):
     names = [c["name"] for c in desc["comps"]]
     for n in rng.sample(names, min(len(names), rng.randint(0, 4))) + (["no such component"] if rng.random() < 0.3 else []):
         if n != "default":
-            cfg["node"][n] = pick(rng, NODE_POOL, 1, 4)
+            # a node whose name starts with % is identified through its label (Graphviz anonymises the id)
+            cfg["node"][n] = pick(rng, {k: v for k, v in NODE_POOL.items() if k != "label" or not n.startswith("%")}, 1, 4)
     if rng.random() < 0.4:
         cfg["cluster"]["default"].update(pick(rng, CLUSTER_POOL))
     groups = sorted(set(c.get("group", "") for c in desc["comps"]) - {"", "default"})
@@ -180,8 +215,8 @@ def gen_case(rng, malformed=None):
     return {"desc": desc, "config": cfg, "group": rng.random() < 0.7, "malformed": malformed}
 
 
-# names that pydot / Graphviz do not take literally (the separate, "malformed" stream)
-BAD_CLASSES = ("colon", "keyword", "prequoted", "dquote", "trailing", "scale", "newline", "percent", "specials")
+# names that still do not come out as themselves (the separate, "malformed" stream)
+BAD_CLASSES = ("backslash", "group", "prequoted")
 
 
 def bad_names(rng, desc, cls):
@@ -189,28 +224,14 @@ def bad_names(rng, desc, cls):
     old = [c["name"] for c in comps]
     k = rng.randrange(len(comps))
     new = {}
-    if cls == "colon":
-        base = rng.choice(["A", "Boost", "n1", "x_2"])
-        new[old[k]] = "%s:%s" % (base, rng.choice(["x", "5V", "out", "1"]))
-        if len(comps) > 1 and rng.random() < 0.6:
-            k2 = rng.choice([i for i in range(len(comps)) if i != k])
-            new[old[k2]] = "%s:%s" % (base, rng.choice(["y", "3V3", "in", "2"]))
-    elif cls == "keyword":
-        new[old[k]] = rng.choice(["node", "edge", "graph", "Node", "EDGE", "Graph"])
-    elif cls == "prequoted":
+    if cls == "backslash":            # DOT cannot express these (finding F23f)
+        new[old[k]] = rng.choice(["a\\", 'b\\"c', "x\\\\\\", "\\"])
+    elif cls == "prequoted":          # the node is right; only the plain label loses its quotes / brackets
         new[old[k]] = rng.choice(['"ab"', "<ab>", '"x y"', "<b>"])
-    elif cls == "dquote":
-        new[old[k]] = rng.choice(['a"b', '5" pipe', '"'])
-    elif cls == "trailing":
-        new[old[k]] = rng.choice(["A:", "a\\", "rail::"])
-    elif cls == "scale":
-        new[old[k]] = "Scale"
-    elif cls == "newline":
-        new[old[k]] = "a\nb"
-    elif cls == "percent":
-        new[old[k]] = rng.choice(["%RH", "% ZU", "%", "%1"])
-    elif cls == "specials":
-        new[old[k]] = rng.choice(["a{b}", "a|b", "a<b", "a>b", "{x}", "<", "|", "x>y<z"])
+    elif cls == "group":              # cluster names are not quoted (finding F23g)
+        g = rng.choice(["a:b", 'g"1', "rail: 5V", '"q"'])
+        for c in rng.sample(comps, min(len(comps), rng.randint(1, 3))):
+            c["group"] = g
     taken = set(old)
     for o, n in list(new.items()):
         if n in taken:
@@ -223,28 +244,23 @@ def bad_names(rng, desc, cls):
 
 
 def name_class(n):
-    """which (if any) class of names pydot / Graphviz do not take literally"""
-    if n.lower() in ("node", "edge", "graph"):
-        return "keyword"
-    if n == "Scale":
-        return "scale"
-    if "\n" in n or "\r" in n:
-        return "newline"
-    if len(n) >= 2 and ((n[0] == '"' and n[-1] == '"') or (n[0] == "<" and n[-1] == ">")):
+    """which (if any) class of component names still does not come out as itself"""
+    if not dot_ok(n):
+        return "backslash"
+    if looks_quoted(n):
         return "prequoted"
-    if '"' in n:
-        return "dquote"
-    if n.endswith(":") or n.endswith("\\"):
-        return "trailing"
-    if ":" in n:
-        return "colon"
-    if n.startswith("%"):
-        return "percent"
     return None
 
 
+def group_bad(g):
+    return ":" in g or '"' in g or not dot_ok(g)
+
+
 def case_class(desc):
-    cl = sorted(set(filter(None, (name_class(c["name"]) for c in desc["comps"]))))
+    cl = set(filter(None, (name_class(c["name"]) for c in desc["comps"])))
+    if any(group_bad(c.get("group", "")) for c in desc["comps"]):
+        cl.add("group")
+    cl = sorted(cl)
     return cl[0] if cl else None
 
 
@@ -448,11 +464,12 @@ def correspond(ctx, case, mode, rec, model, cid):
         return
     gv, g = rec["gv"], model["graph"]
     heat = {r["name"]: r for r in (model["heat"] or [])}
+    sname = g["scale"]["name"] if g["scale"] is not None else None
 
     def cmp_attrs(what, mattrs, oattrs, extra_ok=()):
         for k, v in mattrs:
             if k in ("fillcolor", "label") and what.startswith("node ") and mode == "heat" and \
-                    (what != "node Scale" or k == "label"):
+                    (what != "node %s" % sname or k == "label"):
                 continue                      # compared below with the tie rule
             if oattrs.get(k) != gvs(v):
                 bad("attribute value", {"of": what, "key": k, "impl": oattrs.get(k), "model": gvs(v)})
@@ -496,7 +513,7 @@ def correspond(ctx, case, mode, rec, model, cid):
             ma = dict(mn["attrs"])
             mix, loss = wire.unnum(heat[name]["mix"]), wire.unnum(heat[name]["loss"])
             if on.get("fillcolor") != ma["fillcolor"]:
-                oc, ex = parse_hex(on.get("fillcolor")), exact_channels(mix)
+                oc, ex = parse_hex(on.get("fillcolor")), exact_channels(min(max(mix, 0), 1))
                 if oc is None or any(abs(o - e) > Fraction(1, 2) + Fraction(1, 10 ** 6) for o, e in zip(oc, ex)):
                     bad("heat colour", {"node": name, "impl": on.get("fillcolor"), "model": ma["fillcolor"], "mix": float(mix)})
                 else:
@@ -532,23 +549,32 @@ def correspond(ctx, case, mode, rec, model, cid):
             cmp_attrs("edge %s->%s" % (e["tail"], e["head"]), ma, {k: v for k, v in e.items() if k not in ("tail", "head")})
 
 
-def correspond_colon(ctx, case, mode, rec, model, cid):
-    """F23 stream (simple names with ':'): the model's `renderedId` predicts the node identifiers Graphviz ends up with"""
-    if "bad-op" in model or not model["ok"] or rec["exc"] is not None:
-        if "bad-op" in model or (not model["ok"]) != (rec["exc"] is not None):
-            ctx.corr(cid, "diagram(%s): F23 stream outcome" % mode, {"impl": rec["exc"], "model": model})
-        return
-    g, gv = model["graph"], rec["gv"]
-    rids = set(n["rid"] for c in g["clusters"] for n in c["nodes"]) | set(n["rid"] for n in g["nodes"])
-    if g["scale"] is not None:
-        rids.add("Scale")
-    if rids != set(n["name"] for n in gv["nodes"]):
-        ctx.corr(cid, "diagram(%s): rendered node identifiers (F23 model)" % mode,
-                 {"impl": sorted(n["name"] for n in gv["nodes"]), "model": sorted(rids)})
-    if sorted((e["rsrc"], e["rdst"]) for e in g["edges"]) != sorted((e["tail"], e["head"]) for e in gv["edges"]):
-        ctx.corr(cid, "diagram(%s): rendered edges (F23 model)" % mode,
-                 {"impl": sorted((e["tail"], e["head"]) for e in gv["edges"]),
-                  "model": sorted((e["rsrc"], e["rdst"]) for e in g["edges"])})
+def deanonymise(gv, mode):
+    """Graphviz stores identifiers that start with `%` as anonymous nodes and reports them as `%<n>`; such a node is
+    identified by the name its explicit label shows (plain: the label; heat: the label up to the loss line)"""
+    ren = {}
+    for n in gv["nodes"]:
+        if n["name"].startswith("%"):
+            lab = n.get("label")
+            if lab is None or lab == "\\N":
+                continue
+            ren[n["name"]] = lab[:lab.rfind("\\n")] if (mode == "heat" and "\\n" in lab) else lab
+    if not ren or len(set(ren.values())) != len(ren):
+        return gv
+    for n in gv["nodes"]:
+        n["name"] = ren.get(n["name"], n["name"])
+    for c in gv["clusters"]:
+        c["members"] = [ren.get(m, m) for m in c["members"]]
+    for e in gv["edges"]:
+        e["tail"], e["head"] = ren.get(e["tail"], e["tail"]), ren.get(e["head"], e["head"])
+    return gv
+
+
+def legend_name(names):
+    s = "Scale"
+    while s in names:
+        s += "_"
+    return s
 
 
 # ---------------------------------------------------------------------------------------------------
@@ -586,13 +612,13 @@ def oracle(ctx, case, mode, rec, loss, cid, first_only=False):
     if rec["exc"] is not None:
         fail("renders", {"exception": rec["exc"], "detail": rec["detail"]}, exception=rec["exc"])
     else:
-        # DOT writes a newline inside a name as the two characters \n; that encoding is not held against the code
-        want_nodes = sorted([gvs(n) for n in names] + (["Scale"] if mode == "heat" else []))
+        legend = legend_name(names)
+        want_nodes = sorted(names + ([legend] if mode == "heat" else []))
         got_nodes = sorted(n["name"] for n in gv["nodes"])
         onodes = {n["name"]: n for n in gv["nodes"]}
         if got_nodes != want_nodes:
-            fail("nodes_exact", {"nodes": got_nodes, "components(+Scale)": want_nodes})
-        want_edges = sorted((gvs(a), gvs(b)) for a, b in edges_of(desc))
+            fail("nodes_exact", {"nodes": got_nodes, "components(+legend)": want_nodes})
+        want_edges = sorted((a, b) for a, b in edges_of(desc))
         got_edges = sorted((e["tail"], e["head"]) for e in gv["edges"])
         if got_edges != want_edges:
             fail("edges_exact", {"edges": got_edges, "links": want_edges})
@@ -600,7 +626,7 @@ def oracle(ctx, case, mode, rec, loss, cid, first_only=False):
         groups = {}
         for c in desc["comps"]:
             if c.get("group", "") != "" and case["group"]:
-                groups.setdefault("cluster_" + c["group"], []).append(gvs(c["name"]))
+                groups.setdefault("cluster_" + c["group"], []).append(c["name"])
         got_cl = {c["name"]: sorted(c["members"]) for c in gv["clusters"]}
         if got_cl != {k: sorted(v) for k, v in groups.items()}:
             fail("clusters", {"clusters": got_cl, "groups": groups, "grouping": case["group"]})
@@ -609,7 +635,7 @@ def oracle(ctx, case, mode, rec, loss, cid, first_only=False):
         eff = get_conf() if cfg == {} else cfg
         nsect = eff.get("node", {})
         for c in desc["comps"]:
-            on = onodes.get(gvs(c["name"]))
+            on = onodes.get(c["name"])
             if on is None:
                 continue
             levels = [nsect.get("default", {}), nsect.get(CLASSNAME[c["kind"]], {}), nsect.get(c["name"], {})]
@@ -628,50 +654,49 @@ def oracle(ctx, case, mode, rec, loss, cid, first_only=False):
                 want = [lv[k] for lv in levels if k in lv][-1]
                 if c["attrs"].get(k) != gvs(want):
                     fail("override_precedence", {"cluster": c["name"], "key": k, "shown": c["attrs"].get(k), "expected": want})
-        # heat clauses
+        # heat clauses (a loss that is negative by solver noise is drawn fully cold and labelled with its value)
         if wl is not None:
             if any(v < 0 for v in wl.values()):
-                ctx.stats["heat: negative loss in solve() (heat oracle skipped)"] += 1
-            else:
-                mx = max(wl.values())
-                cols = {}
-                for n in names:
-                    on = onodes.get(gvs(n))
-                    if on is None:
-                        continue
-                    col = parse_hex(on.get("fillcolor"))
-                    if col is None:
-                        fail("heat_colour", {"node": n, "fillcolor": on.get("fillcolor"), "why": "not a heat colour"})
-                        continue
-                    cols[n] = col
-                    if mx > 0 and wl[n] == mx and on.get("fillcolor") != WARM:
-                        fail("heat_colour", {"node": n, "loss": float(wl[n]), "max": float(mx), "fillcolor": on.get("fillcolor"),
-                                             "why": "largest loss is not fully warm"})
-                    if wl[n] == 0 and on.get("fillcolor") != COLD:
-                        fail("heat_colour", {"node": n, "loss": 0.0, "fillcolor": on.get("fillcolor"),
-                                             "why": "zero loss is not fully cold"})
-                    if on.get("fontcolor") is None:
-                        fail("heat_colour", {"node": n, "why": "no fontcolor"})
-                    lv = label_value(on.get("label", ""), n)
-                    sv = None if lv is None else parse_nice(lv)
-                    if sv is None:
-                        fail("heat_label", {"node": n, "label": on.get("label"), "why": "not '<name>\\n<value><SI prefix>W'"})
-                    elif not within_3sig(sv, wl[n]):
-                        fail("heat_label", {"node": n, "label": on.get("label"), "weighted_loss": float(wl[n]),
-                                            "why": "not within half a unit of the third significant digit"})
-                order = sorted(cols, key=lambda n: wl[n])
-                for a, b in zip(order, order[1:]):
-                    if wl[a] < wl[b] * (1 - Fraction(1, 10 ** 9)):
-                        ca, cb = cols[a], cols[b]
-                        if not (ca[0] <= cb[0] and ca[1] >= cb[1] and ca[2] >= cb[2]):
-                            fail("heat_colour", {"why": "colours not ordered as the losses", "a": a, "b": b,
-                                                 "loss_a": float(wl[a]), "loss_b": float(wl[b]), "col_a": ca, "col_b": cb})
-                sc = onodes.get("Scale")
-                if sc is not None and "Scale" not in names:
-                    m = re.fullmatch(r"\{?(.*?)W\|  \|  \| 0W\}?", sc.get("label", ""))
-                    sv = None if m is None else parse_nice(m.group(1))
-                    if sv is None or not within_3sig(sv, mx):
-                        fail("legend", {"label": sc.get("label"), "max_loss": float(mx)})
+                ctx.stats["heat: negative loss in solve()"] += 1
+            mx = max(wl.values())
+            cols = {}
+            for n in names:
+                on = onodes.get(n)
+                if on is None:
+                    continue
+                col = parse_hex(on.get("fillcolor"))
+                if col is None:
+                    fail("heat_colour", {"node": n, "fillcolor": on.get("fillcolor"), "why": "not a heat colour"})
+                    continue
+                cols[n] = col
+                if mx > 0 and wl[n] == mx and on.get("fillcolor") != WARM:
+                    fail("heat_colour", {"node": n, "loss": float(wl[n]), "max": float(mx), "fillcolor": on.get("fillcolor"),
+                                         "why": "largest loss is not fully warm"})
+                if wl[n] == 0 and mx >= 0 and on.get("fillcolor") != COLD:
+                    fail("heat_colour", {"node": n, "loss": 0.0, "fillcolor": on.get("fillcolor"),
+                                         "why": "zero loss is not fully cold"})
+                if on.get("fontcolor") is None:
+                    fail("heat_colour", {"node": n, "why": "no fontcolor"})
+                lv = label_value(on.get("label", ""), n)
+                sv = None if lv is None else parse_nice(lv)
+                if sv is None:
+                    fail("heat_label", {"node": n, "label": on.get("label"), "why": "not '<name>\\n<value><SI prefix>W'"})
+                elif not within_3sig(sv, wl[n]):
+                    fail("heat_label", {"node": n, "label": on.get("label"), "weighted_loss": float(wl[n]),
+                                        "why": "not within half a unit of the third significant digit"})
+            order = sorted(cols, key=lambda n: wl[n])
+            for a, b in zip(order, order[1:]):
+                if wl[a] < wl[b] - abs(wl[b]) * Fraction(1, 10 ** 9):
+                    ca, cb = cols[a], cols[b]
+                    if not (ca[0] <= cb[0] and ca[1] >= cb[1] and ca[2] >= cb[2]):
+                        fail("heat_colour", {"why": "colours not ordered as the losses", "a": a, "b": b,
+                                             "loss_a": float(wl[a]), "loss_b": float(wl[b]), "col_a": ca, "col_b": cb})
+            sc = onodes.get(legend)
+            if sc is not None:
+                m = re.fullmatch(r"\{?(.*?)W\|  \|  \| 0W\}?", sc.get("label", ""))
+                sv = None if m is None else parse_nice(m.group(1))
+                if sv is None or not within_3sig(sv, mx):
+                    fail("legend", {"label": sc.get("label"), "max_loss": float(mx)})
     if first_only:
         prio = ["renders", "nodes_exact", "edges_exact", "clusters", "override_precedence", "heat_colour", "heat_label",
                 "legend", "config_unchanged"]
@@ -748,6 +773,8 @@ def run_batch(ctx, cases, malformed=False, workers=None):
                              "config_keys": sorted(case["config"].get("node", {}))[:8] if case["config"] else "{}"})
             model = ask_model(ctx.drv, case, mode, out["loss"])
             ctx.traces += 1
+            if rec["gv"] is not None:
+                deanonymise(rec["gv"], mode)
             if not malformed:
                 correspond(ctx, case, mode, rec, model, cid)
                 if rec["exc"] in ("KeyError", "TypeError") and model.get("ok") is False:
@@ -758,9 +785,16 @@ def run_batch(ctx, cases, malformed=False, workers=None):
                     continue
                 oracle(ctx, case, mode, rec, out["loss"], cid)
             else:
-                if case.get("malformed") == "colon" and case["config"] == {} and \
-                        all(re.fullmatch(r"[A-Za-z_][A-Za-z_0-9:]*[A-Za-z_0-9]", c["name"]) for c in desc["comps"]):
-                    correspond_colon(ctx, case, mode, rec, model, cid)
+                # names DOT cannot express / un-quoted cluster names: the model stops at what pydot is handed, so only
+                # the exception-free part of the model is compared: it must say which names are inexpressible
+                if "bad-op" in model:
+                    ctx.corr(cid, "diagram(%s): driver rejects the description" % mode, model)
+                elif model.get("ok") and case.get("malformed") == "backslash":
+                    rids = [n["rid"] for c in model["graph"]["clusters"] for n in c["nodes"]] + \
+                           [n["rid"] for n in model["graph"]["nodes"]]
+                    if (None in rids) != any(not dot_ok(c["name"]) for c in desc["comps"]):
+                        ctx.corr(cid, "diagram(%s): which names DOT can express (renderedId)" % mode,
+                                 {"model_rids": rids, "names": [c["name"] for c in desc["comps"]]})
                 oracle(ctx, case, mode, rec, out["loss"], cid, first_only=True)
     if not malformed and gvfail > max(3, 0.02 * 2 * len(cases)):
         raise RuntimeError("Graphviz itself failed on %d of %d well-formed diagrams" % (gvfail, 2 * len(cases)))
@@ -782,13 +816,6 @@ def witness_cases():
     return out
 
 
-def simple_colon_case(rng):
-    """small system whose names are plain identifiers, two of them `A:x`, `A:y` style (F23 correspondence stream)"""
-    desc = gen.gen_system(rng, max_nodes=6, p_group=0.3, phases=0.3, p_mux=0.0)
-    bad_names(rng, desc, "colon")
-    return {"desc": desc, "config": {}, "group": rng.random() < 0.7, "malformed": "colon"}
-
-
 def run(ctx):
     wit = witness_cases()
     mal = [c for c in wit if c.get("malformed")]
@@ -797,15 +824,12 @@ def run(ctx):
         run_batch(ctx, mal, malformed=True)
     good = [c for c in wit if not c.get("malformed")]
     if good:
+        ctx.stats["regression_cases"] += len(good)
         run_batch(ctx, good)
     n = ctx.n(200, 6000)
     run_batch(ctx, [gen_case(ctx.rng) for _ in range(n)])
-    nm = ctx.n(27, 450)
-    cases = []
-    for k in range(nm):
-        cls = BAD_CLASSES[k % len(BAD_CLASSES)]
-        cases.append(simple_colon_case(ctx.rng) if (cls == "colon" and k % 16 == 0) else gen_case(ctx.rng, malformed=cls))
-    run_batch(ctx, cases, malformed=True)
+    nm = ctx.n(24, 300)
+    run_batch(ctx, [gen_case(ctx.rng, malformed=BAD_CLASSES[k % len(BAD_CLASSES)]) for k in range(nm)], malformed=True)
 
 
 def search(ctx):
